@@ -273,6 +273,8 @@ func alphabet(n int, full bool) []alphaItem {
 	add("event_signing_start", "signStart", hs("A"), "0", T(7), "1", hs("m1"), hs("f"), "x6d", "0", "0")
 	add("event_signing_start", "signStart", hs("B"), "1", T(8), "1", hs("m1"), hs("f"), "x6e", "0", "0")
 	add("event_signing_start", "signStart", hs(""), "0", T(7), "1", hs("m1"), hs("f"), "x6d", "0", "0")
+	// an explicit but empty (non-nil) payload next to a range: must stay an explicit payload
+	add("event_signing_start", "signStart", hs("C"), "0", T(7), "2", hs("e1"), hs("f e"), "x", "0", "2", hs("r1"), hs(""), "-", "1", "3")
 	add("event_signing_restart", "default", T(9))
 	// wrong request type, internal and unknown events
 	add("event_dkg_commit_confirm_received", "sigPart", "0", T(2))
